@@ -26,6 +26,7 @@ type lpFunc struct {
 type lpEvent struct {
 	acq bool
 	cls string
+	blk string // non-empty: not a lock operation but a potentially blocking one (channel send / receive, select without default, Wait)
 }
 
 type lpCtx struct {
@@ -35,6 +36,7 @@ type lpCtx struct {
 	threads map[string]*lpFunc // goroutine bodies discovered
 	problems []string
 	unresolved map[string]bool // callee expressions that are neither locks nor inlined
+	inSelect int // > 0 while executing the comm statement of a select clause (its blocking is the select's)
 }
 
 func (c *lpCtx) classID(name string) int {
@@ -157,7 +159,7 @@ func appendAll(paths []lpPath, ev ...lpEvent) []lpPath {
 func (c *lpCtx) callPaths(f *lpFunc, ce *ast.CallExpr, depth int) [][]lpEvent {
 	if acq, cls, ok := c.lockCall(f, ce); ok {
 		c.classID(cls)
-		return [][]lpEvent{{{acq, cls}}}
+		return [][]lpEvent{{{acq: acq, cls: cls}}}
 	}
 	txt := exprString(ce)
 	var targets []string
@@ -207,6 +209,13 @@ func (c *lpCtx) execExprCalls(f *lpFunc, n ast.Node, paths []lpPath, depth int) 
 			return false
 		case *ast.CallExpr:
 			calls = append(calls, x)
+			if se, ok := x.Fun.(*ast.SelectorExpr); ok && se.Sel.Name == "Wait" && c.inSelect == 0 {
+				paths = appendAll(paths, lpEvent{blk: "wait " + exprString(x.Fun)})
+			}
+		case *ast.UnaryExpr:
+			if x.Op == token.ARROW && c.inSelect == 0 {
+				paths = appendAll(paths, lpEvent{blk: "receive from " + exprString(x.X)})
+			}
 		}
 		return true
 	})
@@ -287,13 +296,30 @@ func (c *lpCtx) execStmt(f *lpFunc, st ast.Stmt, paths []lpPath, defers *[][]lpE
 		return dedupPaths(append(body, clonePaths(paths)...))
 	case *ast.BlockStmt:
 		return c.execBlock(f, s.List, paths, defers, depth)
+	case *ast.SendStmt:
+		paths = c.execExprCalls(f, s, paths, depth)
+		if c.inSelect == 0 {
+			paths = appendAll(paths, lpEvent{blk: "send on " + exprString(s.Chan)})
+		}
+		return paths
 	case *ast.SelectStmt:
+		hasDefault := false
+		for _, cl := range s.Body.List {
+			if cl.(*ast.CommClause).Comm == nil {
+				hasDefault = true
+			}
+		}
+		if !hasDefault {
+			paths = appendAll(paths, lpEvent{blk: "select without default"})
+		}
 		var out []lpPath
 		for _, cl := range s.Body.List {
 			cc := cl.(*ast.CommClause)
 			p := clonePaths(paths)
 			if cc.Comm != nil {
+				c.inSelect++
 				p = c.execStmt(f, cc.Comm, p, defers, depth)
+				c.inSelect--
 			}
 			out = append(out, c.execBlock(f, cc.Body, p, defers, depth)...)
 		}
@@ -343,6 +369,10 @@ func clonePaths(p []lpPath) []lpPath {
 func pathKey(ev []lpEvent) string {
 	var b strings.Builder
 	for _, e := range ev {
+		if e.blk != "" {
+			b.WriteString("!" + e.blk + ";")
+			continue
+		}
 		if e.acq {
 			b.WriteString("+")
 		} else {
@@ -511,18 +541,43 @@ func genLockProg() {
 	}
 	b.WriteString("Definition lock_classes : list string :=\n  [" + strings.Join(cn, "; ") + "].\n\n")
 	var rows []string
+	var blocking []string
+	blockSeen := map[string]bool{}
 	seen := map[string]bool{}
 	for _, p := range all {
 		if len(p.ev) == 0 {
 			continue
 		}
 		var es []string
+		held := map[string]int{}
 		for _, e := range p.ev {
+			if e.blk != "" {
+				var hs []string
+				for k, v := range held {
+					if v > 0 {
+						hs = append(hs, k)
+					}
+				}
+				if len(hs) > 0 {
+					sort.Strings(hs)
+					bl := fmt.Sprintf("(%s, %s)", coqString(p.name), coqString(e.blk+" while holding "+strings.Join(hs, ", ")))
+					if !blockSeen[bl] {
+						blockSeen[bl] = true
+						blocking = append(blocking, bl)
+					}
+				}
+				continue
+			}
 			if e.acq {
+				held[e.cls]++
 				es = append(es, fmt.Sprintf("Acq %d", id[e.cls]))
 			} else {
+				held[e.cls]--
 				es = append(es, fmt.Sprintf("Rel %d", id[e.cls]))
 			}
+		}
+		if len(es) == 0 {
+			continue
 		}
 		row := fmt.Sprintf("(%s, [%s])", coqString(p.name), strings.Join(es, "; "))
 		if !seen[row] {
@@ -543,6 +598,10 @@ func genLockProg() {
 	for _, k := range un {
 		unq = append(unq, coqString(k))
 	}
+	sort.Strings(blocking)
+	b.WriteString("\n(* potentially blocking operations (channel send / receive, select without default, Wait)\n   executed while a lock of these classes is held, on any path of any entry point *)\n")
+	b.WriteString("Definition blocking_under_lock : list (string * string) :=\n  [" + strings.Join(blocking, ";\n   ") + "].\n")
+	rep.Facts["lockprog.blocking_under_lock"] = fmt.Sprint(len(blocking))
 	b.WriteString("\n(* callee expressions on these paths that are neither lock operations nor inlined *)\n")
 	b.WriteString("Definition unresolved_calls : list string :=\n  [" + strings.Join(unq, "; ") + "].\n")
 	writeIfChanged("LockProg.v", b.String())
